@@ -47,6 +47,16 @@ C["C11"] = ("Coq theorems: for every byte stream and every reader the decoder's 
             "recover() against the extracted models; four depth probes (3M nested arrays / empty lines ...) decoded in a child process with a 48 MB stack cap.",
             "Go stack/heap/scheduler are runtime facts (the theorems bound the model's counters); inline commands and simple strings have no length limit in the code (line length is not bounded).",
             "DESIGN.md §4 C11")
+C["C15"] = ("Coq theorems over a model of host.Set with object identities: after ANY sequence of Add/Remove/ReplaceAll/MarkHostHealthy/MarkHostUnhealthy (any objects, same address re-added as "
+            "another object or type, stale objects) the cached usable list equals the members marked healthy in the preferred tier in address order, and lists members only (invariant by "
+            "induction over operations); the health flag flips only at a check completing more than the configured number of consecutive contrary results. Tie: operation sequences on the real "
+            "host.Set over 16 objects sharing 4 addresses observed after every operation (Healthy, All, latches, flags) and the real monitor with a scripted checker (all result sequences of "
+            "length <= 10) vs the extracted model; the property's oracle is evaluated on every snapshot.",
+            "Operations atomic at the granularity of the locked blocks; the CAS/lock interleaving of concurrent calls is not explored.", "DESIGN.md §4 C15")
+C["C06"] = ("Coq theorems: any n consecutive round-robin counter values select each of n hosts exactly once (a permutation; hence k each for n*k); all three policies pick members of the candidate "
+            "list; least-connection never prefers the strictly busier sample; the candidates are healthy members (C15 invariant); Remove through any object with the address closes the stored "
+            "object's removal latch. Tie: the real balancers via a re-exported constructor with scripted draws, round robin under 64 concurrent callers, and host.Set sequences vs the model.",
+            "The end-to-end TCP part (chosen backend per connection, closure on removal) is exercised by the relay harness; atomic increments assumed distinct/consecutive.", "DESIGN.md §4 C06")
 checks = []
 for pid in sorted(C):
     text, note, ref = C[pid]
